@@ -583,7 +583,24 @@ class Lower:
     def stmt_inner(self, s):
         k = s[0]
         if k == 'block':
-            return self.seq([self.stmt(x) for x in s[1]])
+            out = []
+            lst = s[1]
+            i = 0
+            while i < len(lst):
+                x = lst[i]
+                # `uint32_t tmp = 0;` directly before the signature loop is part of the loop (SScan starts from 0)
+                if x[0] == 'decl' and i + 1 < len(lst) and lst[i + 1][0] == 'while' and x[3] == ('num', '0') \
+                   and lst[i + 1][1][0] == 'bin' and lst[i + 1][1][2] == ('name', x[2]) and self.ctx.scalar_ity(x[1]) == 'U32':
+                    self.ctx.nlocals += 1
+                    self.ctx.locals[x[2]] = (self.ctx.nlocals, 'U32')
+                    if match_scan(self, lst[i + 1]) is not None:
+                        i += 1
+                        continue
+                    del self.ctx.locals[x[2]]
+                    self.ctx.nlocals -= 1
+                out.append(self.stmt(x))
+                i += 1
+            return self.seq(out)
         if k == 'unsupported':
             raise Unsupported(s[1])
         if k == 'if':
